@@ -2,7 +2,7 @@ from typing import List, Any
 
 from pydbml.classes import Index, Expression, Column
 from pydbml.renderer.dbml.default.renderer import DefaultDBMLRenderer
-from pydbml.renderer.dbml.default.utils import comment_to_dbml, note_option_to_dbml, string_to_dbml
+from pydbml.renderer.dbml.default.utils import comment_to_dbml, name_to_dbml, note_option_to_dbml, string_to_dbml
 
 
 def render_subjects(source_subjects: List[Any]) -> str:
@@ -10,7 +10,7 @@ def render_subjects(source_subjects: List[Any]) -> str:
 
     for subj in source_subjects:
         if isinstance(subj, Column):
-            subjects.append(subj.name)
+            subjects.append(name_to_dbml(subj.name))
         elif isinstance(subj, Expression):
             subjects.append(DefaultDBMLRenderer.render(subj))
         else:
